@@ -16,7 +16,8 @@ use std::time::Duration;
 
 pub struct C18;
 
-const SITES: [&str; 4] = ["KDMX", "KTLX", "PHWA", "TJUA"];
+// four-letter ICAO sites and the test / ROC radars whose identifiers carry a digit
+const SITES: [&str; 6] = ["KDMX", "KTLX", "PHWA", "TJUA", "DAN1", "NOP3"];
 
 #[derive(Clone, Debug)]
 pub struct Config {
@@ -50,7 +51,7 @@ pub enum Flavor {
 }
 
 pub fn draw_config(tape: &mut Tape, flavor: Flavor, max_deliveries: usize) -> Config {
-    let site = SITES[tape.draw(4) as usize].to_string();
+    let site = SITES[tape.draw(6) as usize].to_string();
     let mode = match flavor {
         Flavor::AdaptiveClean | Flavor::AdaptiveFaults | Flavor::FullRotation => UploaderMode::AttemptAdaptive,
         Flavor::ScriptedClean | Flavor::ScriptedFaults => UploaderMode::TimeScripted,
